@@ -19,7 +19,8 @@ FILES = [RX, ASM, MOD, VEC]
 FUNCTIONS = [(MOD, "AbstractModule.overhang_start"), (MOD, "AbstractModule.overhang_end"),
              (VEC, "AbstractVector.overhang_start"), (VEC, "AbstractVector.overhang_end"),
              (RX, "DNARegex._transcribe"), (ASM, "AssemblyManager.__init__"),
-             (ASM, "AssemblyManager._generate_modules_map"), (ASM, "AssemblyManager._generate_assembly")]
+             (ASM, "AssemblyManager._generate_modules_map"), (ASM, "AssemblyManager._generate_assembly"),
+             ("moclo/moclo/core/_structured.py", "StructuredRecord._get_regex"), ("moclo/moclo/core/_structured.py", "StructuredRecord._match"), (RX, "DNARegex.search")]
 ASSUMES = ["D-RE", "RE4: under the (?i) flag, whether a window matches and where its groups lie depend only on the "
                    "upper-cased window (enumerated for the 15 codes in C16's bounded part)",
            "D-SEQ (Seq == and hash are case-sensitive: this is why the overhangs themselves must be normalised)",
